@@ -69,6 +69,18 @@ type Packet struct {
 	Auth               Authenticator
 }
 
+// maxNumCookieFields returns the number of cookie (or cookie placeholder)
+// extension fields of the given cookie length that fit into a packet of
+// MaxPacketLen bytes next to the NTP header, the unique identifier and the
+// authenticator (16 byte nonce, 16 byte tag). The same limit holds for the
+// cookies a response carries inside its authenticator.
+func maxNumCookieFields(idLen, cookieLen int) int {
+	const authenticatorLen = 4 + 2 + 2 + 16 + 16
+	uidLen := 4 + (idLen+3)&^3
+	fieldLen := 4 + (cookieLen+3)&^3
+	return (MaxPacketLen - ntpPacketLen - uidLen - authenticatorLen) / fieldLen
+}
+
 // NewRequestPacket returns a new Packet initialized with a new UniqueID and a Cookie from ntskeData.
 func NewRequestPacket(ntskeData ntske.Data) (pkt Packet, uniqueid []byte) {
 	id, err := newID()
@@ -86,7 +98,9 @@ func NewRequestPacket(ntskeData ntske.Data) (pkt Packet, uniqueid []byte) {
 
 	// Add cookie extension fields here s.t. 8 cookies are available after response.
 	cookiePlaceholderData := make([]byte, len(cookie.Cookie))
-	for i := len(ntskeData.Cookie); i < numStoredCookies; i++ {
+	maxCookieFields := maxNumCookieFields(len(id), len(cookie.Cookie))
+	for i := len(ntskeData.Cookie); i < numStoredCookies &&
+		len(pkt.Cookies)+len(pkt.CookiePlaceholders) < maxCookieFields; i++ {
 		var cookiePlacholder CookiePlaceholder
 		cookiePlacholder.Cookie = cookiePlaceholderData
 		pkt.CookiePlaceholders = append(pkt.CookiePlaceholders, cookiePlacholder)
@@ -276,6 +290,11 @@ func NewResponsePacket(cookies [][]byte, key []byte, uniqueid []byte) (pkt Packe
 	var uid UniqueIdentifier
 	uid.ID = uniqueid
 	pkt.UniqueID = uid
+
+	// Provide as many cookies as fit into a packet.
+	if n := maxNumCookieFields(len(uniqueid), len(cookies[0])); n > 0 && len(cookies) > n {
+		cookies = cookies[:n]
+	}
 
 	lencookies := len(cookies) * (4 + len(cookies[0]))
 	buf := make([]byte, lencookies)
